@@ -12,38 +12,38 @@ import (
 
 // Step is what the monitors recorded for one history operation.
 type Step struct {
-	I      int
-	Op     *Op
-	Seq    uint32
-	From   string // source address of the request
-	Req    []byte
-	Sent   bool // false: the op could not be issued (e.g. target session never established)
-	Rsp    *Datagram
-	Extra  []*Datagram // other datagrams that arrived at any SMF socket during the step (not report requests)
-	ExtraAt []int      // SMF index each extra arrived at
-	Reports []*Datagram // Session Report Requests that arrived during the step
-	RepAt   []int       // SMF index each report arrived at
-	Calls  []DPCall
-	Pre    *pfcp.VerifSnap
-	Post   *pfcp.VerifSnap
-	DPPre  map[RuleKey]int
-	DPPost map[RuleKey]int
-	UP     uint64 // header SEID used (mod/del/urep)
+	I        int
+	Op       *Op
+	Seq      uint32
+	From     string // source address of the request
+	Req      []byte
+	Sent     bool // false: the op could not be issued (e.g. target session never established)
+	Rsp      *Datagram
+	Extra    []*Datagram // other datagrams that arrived at any SMF socket during the step (not report requests)
+	ExtraAt  []int       // SMF index each extra arrived at
+	Reports  []*Datagram // Session Report Requests that arrived during the step
+	RepAt    []int       // SMF index each report arrived at
+	Calls    []DPCall
+	Pre      *pfcp.VerifSnap
+	Post     *pfcp.VerifSnap
+	DPPre    map[RuleKey]int
+	DPPost   map[RuleKey]int
+	UP       uint64 // header SEID used (mod/del/urep)
 	Injected []report.USAReport
-	Err    string
-	Drops  int
+	Err      string
+	Drops    int
 }
 
 type Trace struct {
-	H      *History
-	Steps  []*Step
-	Faults map[int]string
-	UPFIP  string
-	Probe  string
-	NCalls int // faultable calls seen
-	Fatal  []string
-	Abort  string // barrier / watchdog failure: the rest of the history was not executed
-	SMFIPs []string
+	H        *History
+	Steps    []*Step
+	Faults   map[int]string
+	UPFIP    string
+	Probe    string
+	NCalls   int // faultable calls seen
+	Fatal    []string
+	Abort    string // barrier / watchdog failure: the rest of the history was not executed
+	SMFIPs   []string
 	SMFAddrs [][]string
 }
 
@@ -52,6 +52,9 @@ var Timing = os.Getenv("VERIF_TIMING") != ""
 // Runner executes histories against a fresh PFCP server each.
 type Runner struct {
 	MaxRetrans uint8
+	// NoRemoveReport: the model data plane removes URRs without handing back a final
+	// report (what forwarder.Empty does); the session then keeps the URR's record.
+	NoRemoveReport bool
 	// Driver returns the driver for a run; nil means a fresh ModelDP.
 	NewDriver func() (forwarder.Driver, func() map[RuleKey]int, func())
 	ExtraSock bool
@@ -68,6 +71,7 @@ func (rn *Runner) Run(h *History, faults map[int]string) *Trace {
 		inner, table, cleanup = rn.NewDriver()
 	} else {
 		mdp = NewModelDP()
+		mdp.NoRemRep = rn.NoRemoveReport
 		inner, table = mdp, mdp.Table
 	}
 	tap := &Tap{Inner: inner, Faults: faults}
@@ -102,7 +106,7 @@ func (rn *Runner) Run(h *History, faults map[int]string) *Trace {
 		tr.Fatal = append(tr.Fatal, TakeFatals()...)
 	}()
 	// node index 7 is the "unknown node" (never associated); nodes 0..Nodes-1 get sockets
-	for n := 0; n < h.Nodes; n++ {
+	for n := 0; n < h.Nodes+h.Extra; n++ {
 		s, err := NewSMF(n+2, env.UPF, extra)
 		if err != nil {
 			tr.Abort = "smf: " + err.Error()
@@ -185,6 +189,13 @@ func (rn *Runner) Run(h *History, faults map[int]string) *Trace {
 		seq := smf.NextSeq()
 		st.Seq = seq
 		switch op.K {
+		case "dup":
+			if op.Ref < len(tr.Steps)-1 && tr.Steps[op.Ref].Sent && tr.Steps[op.Ref].Req != nil {
+				msg = tr.Steps[op.Ref].Req
+				seq = tr.Steps[op.Ref].Seq
+				st.Seq = seq
+				st.UP = tr.Steps[op.Ref].UP
+			}
 		case "hb":
 			msg = BuildMsg(MHeartbeatReq, nil, seq, RecoveryTS(0x11223344))
 		case "assoc":
